@@ -28,7 +28,7 @@ import (
 type zvC08Cfg struct {
 	Kind      string `json:"session"`          // ebgp | rs | ibgp | rr
 	AddPath   int    `json:"addpath_maxpaths"` // 0 = best path only
-	Policy    string `json:"policy"`           // accept | reject_p1 | set_med
+	Policy    string `json:"policy"`           // accept | reject_p1 | set_med | prepend (an action that accumulates when applied twice)
 	Reflected bool   `json:"ibgp_path_already_reflected"`
 	Small     bool   `json:"small_second_prefix"` // second prefix only takes ebgpX, noadv, static; ReplacePath only on the first
 }
@@ -54,6 +54,7 @@ const (
 	zvC08LocalASN  = 65000
 	zvC08ClusterID = 0x09090909
 	zvC08MED       = 50
+	zvC08PrependASN = 65077
 )
 
 var (
@@ -269,6 +270,17 @@ func zvC08Export(cfg zvC08Cfg, pfx int, d zvC08Desc) (e zvC08Exp, exported bool,
 	if cfg.Policy == "set_med" {
 		e.MED = zvC08MED
 	}
+	if cfg.Policy == "prepend" && !e.ASPathAny {
+		// the export policy runs after the session's own rewrites
+		base := d.ASNs
+		if d.Static {
+			base = nil
+		}
+		if cfg.Kind == "ebgp" {
+			base = append([]uint32{zvC08LocalASN}, base...)
+		}
+		e.ASPath = flat(append([]uint32{zvC08PrependASN}, base...))
+	}
 	return e, true, ""
 }
 
@@ -279,6 +291,10 @@ func zvC08Chain(cfg zvC08Cfg) filter.Chain {
 			filter.NewTerm("p1", []*filter.TermCondition{filter.NewTermConditionWithRouteFilters(filter.NewRouteFilter(zvC08Pfxs[0], filter.NewExactMatcher()))},
 				[]actions.Action{actions.NewRejectAction()}),
 			filter.NewTerm("rest", nil, []actions.Action{actions.NewAcceptAction()}),
+		})}
+	case "prepend":
+		return filter.Chain{filter.NewFilter("PREPEND", []*filter.Term{
+			filter.NewTerm("all", nil, []actions.Action{actions.NewASPathPrependAction(zvC08PrependASN, 1), actions.NewAcceptAction()}),
 		})}
 	case "set_med":
 		return filter.Chain{filter.NewFilter("SET_MED", []*filter.Term{
@@ -798,7 +814,7 @@ func zvC08Configs(thorough bool) []zvC08Cfg {
 	}
 	for _, ap := range aps {
 		for _, k := range []string{"ebgp", "rr", "rs", "ibgp"} {
-			for _, pol := range []string{"accept", "reject_p1", "set_med"} {
+			for _, pol := range []string{"accept", "reject_p1", "set_med", "prepend"} {
 				cs = append(cs, zvC08Cfg{Kind: k, AddPath: ap, Policy: pol, Small: !thorough})
 				if k == "rr" {
 					cs = append(cs, zvC08Cfg{Kind: k, AddPath: ap, Policy: pol, Reflected: true, Small: !thorough})
@@ -817,7 +833,7 @@ func TestVerifC08(t *testing.T) {
 	r := vh.Start(t, "C08")
 	defer r.Finish()
 	zvoTune()
-	r.Rule("per configuration (session kind ebgp|rs-client|ibgp|rr-client x add-path TX off|MaxPaths 2 (thorough: also 3) x export policy accept-all|reject P1|set MED; rr-client also with an already reflected iBGP path), " +
+	r.Rule("per configuration (session kind ebgp|rs-client|ibgp|rr-client x add-path TX off|MaxPaths 2 (thorough: also 3) x export policy accept-all|reject P1|set MED|prepend an AS; rr-client also with an already reflected iBGP path), " +
 		"BFS over all Loc-RIB histories of AddPath/RemovePath/ReplacePath of {eBGP-learned, iBGP-learned, learned from this peer, NO_EXPORT, NO_ADVERTISE, static} paths on 2 prefixes " +
 		"(quick: the second prefix takes 3 of the 6 paths and no ReplacePath) until the canonical state (Loc-RIB order, stored paths, peer view, pathIDManager) set closes; " +
 		"oracle on every reached state: Adj-RIB-Out table and the peer view of the recording client equal the reference export view; evaluations = configurations explored")
